@@ -66,6 +66,8 @@ type h2Hist struct {
 	boundCid map[int]bool
 	tcpMode  bool
 	cidLid   map[int]int
+	closedProbe bool
+	lastAnswered bool
 }
 
 func (h *h2Hist) pick(xs ...int) int { return xs[h.rng.Intn(len(xs))] }
@@ -185,6 +187,12 @@ func (h *h2Hist) do(line string, act func()) {
 	h.vt.OpSync("%s", line)
 	act()
 	outs := h.w.collect()
+	h.lastAnswered = false
+	for _, o := range outs {
+		if strings.HasPrefix(o, "resp ") {
+			h.lastAnswered = true
+		}
+	}
 	if len(outs) == 0 {
 		h.vt.Obs("-")
 	} else {
@@ -209,12 +217,6 @@ func (h *h2Hist) do(line string, act func()) {
 		h.vt.Stat("silent." + kind)
 	}
 	h.vt.Stat("op." + kind)
-	for _, e := range h.w.ev.take() {
-		h.vt.Note("ev %s", e)
-	}
-	for _, e := range h.w.n.takeEvents() {
-		h.vt.Note("net %s", e)
-	}
 	h.vt.Op("state")
 	h.vt.Obs("%s", h.w.stateLine(h.keys))
 }
@@ -597,6 +599,9 @@ func (h *h2Hist) opBinding(c *h2Client) {
 	h.tid++
 	raw := h.build(stun.BindingRequest, h.tid, nil)
 	h.do(fmt.Sprintf("m %s %d binding %d", k, len(raw), h.tid), func() { c.sendRaw(raw) })
+	if h.closed && h.lastAnswered {
+		h.vt.Alarm("server-close-leaves-control-connections", "a Binding request on stream control connection %s was answered after Server.Close", k)
+	}
 }
 
 func (h *h2Hist) opUnknown(c *h2Client) {
@@ -869,6 +874,19 @@ func runH2History(t *testing.T, vt *vhT, seed int64, nOps int) {
 		}
 		if rng.Intn(3) == 0 {
 			h.do("close", func() { _ = w.srv.Close() })
+			h.closed = true
+			// C15 monitor: after Server.Close nothing should be served any more
+			for _, c := range w.clients {
+				if c.conn != nil && !c.isData {
+					before := len(c.rawbuf)
+					h.opBinding(c)
+					c.mu.Lock()
+					_ = before
+					c.mu.Unlock()
+					h.closedProbe = true
+					break
+				}
+			}
 		}
 		w.shutdown()
 		// C15 monitor: after shutdown nothing the server opened may remain open
